@@ -204,7 +204,7 @@ func c07Run(c *mon.Ctx) {
 			}
 		}
 	}
-	vals := c.Pick(5, 40)
+	vals := c.Pick(5, 100)
 	c.ForEach(len(cells)*vals, func(w, i int) {
 		ce := cells[i/vals]
 		r := c.Rand(1, uint64(i))
@@ -277,7 +277,7 @@ func c07Run(c *mon.Ctx) {
 			}
 		}
 	}
-	n := c.Pick(60_000, 3_000_000)
+	n := c.Pick(60_000, 20_000_000)
 	c.ForEach(n, func(w, i int) {
 		r := c.Rand(2, uint64(i))
 		run(rulegen.Random(r, &rulegen.Opts{WatchDir: dir, WatchFile: file}))
